@@ -141,3 +141,13 @@ Proof. exact ex_reach. Qed.
 Example C04_cache_protocol_present :
   stores_flush_cache = true /\ gc_roots_globals = true /\ mono_hit_guard = true /\ cache_fills_from_callee = true.
 Proof. exact protocol_present. Qed.
+
+(* the raw code pointer the loop reads, patches and caches is taken from the place of the boxed word slice: it carries
+   write permission and taking it does not invalidate earlier ones (KF-C04-5, found by Miri, repaired by 92a073f);
+   the aliasing discipline itself is checked by the Miri leg of the thorough tier, not by a model *)
+Example C04_code_pointer_writable : code_ptr_writable = true.
+Proof. reflexivity. Qed.
+
+(* the dispatch loop splits an instruction word into opcode / a / b / c / imm exactly like the verifier (both read off the source) *)
+Example C04_decode_fields_agree : disp_op_shift = op_shift /\ disp_a_shift = a_shift /\ disp_b_shift = b_shift.
+Proof. exact decode_fields_agree. Qed.
